@@ -154,7 +154,7 @@ func runCond(t *testing.T, steps []condStep) ([]Ev, bool, string) {
 // genCond: random schedule; safe = at most one waiter is held at the gate while signals are sent
 // (the situation in which the capacity-1 channel of the current design cannot drop a token).
 func genCond(rng *rand.Rand, safe bool) []condStep {
-	var out []condStep
+	out := []condStep{}
 	nw := 1 + rng.Intn(3)
 	entered, released := map[int]bool{}, map[int]bool{}
 	ngated := func() int {
